@@ -3,7 +3,7 @@ from checks._pool_common import ASSUMPTIONS, COMPONENTS, make, simplify_knobs, s
 PROP = "C14"
 RUN_WALL_S = 5  # wall-clock limit of one simulated run (a run that never returns is a violation)
 LEVEL = "exploration"
-RUNS = {"quick": 30000, "thorough": 2000000}
+RUNS = {"quick": 20000, "thorough": 2000000}
 BUDGET_S = {"quick": 45, "thorough": 840}
 CHUNK = 400
 RULE = ("One evaluation = one seeded run with one well-behaved and 1-3 misbehaving client connections (abort without close, abort right after enqueue, EOF, 26 kinds of malformed/ill-typed/unknown/over-long/truncated requests, cancel of unknown ids, dependency on never-issued ids) interleaved with the task events of C11. Oracles: every accepted task (also those accepted from malformed requests) reaches a final state; get_task_states on the healthy connection equals the pool's table at the instant of the answer and its key set equals the ids issued so far; ids never repeat; enqueue replies carry the id the scheduler assigned; after the faults stop a new task is accepted and run. Non-trivial = a client fault fired and a state query was answered.")
